@@ -408,7 +408,12 @@ impl<'a> Gen<'a> {
         } else if roll < 94 && self.o.for_loops {
             let x = self.fresh_var();
             let n = self.w.below(3);
-            let coll: Vec<T> = (0..n).map(|_| self.var_or_atom(scope)).collect();
+            let mut coll: Vec<T> = (0..n).map(|_| self.var_or_atom(scope)).collect();
+            if !coll.is_empty() && self.w.chance(1, 3) {
+                // equal elements: each iteration still gets its own body
+                let e = self.w.pick(&coll).clone();
+                coll.push(e);
+            }
             let mut s2 = scope.to_vec();
             s2.push(x);
             let k = self.width().min(2);
